@@ -46,6 +46,17 @@ JudgeClosest(ev, j) ==
                ELSE IF d = e THEN "closest.best_set" ELSE "closest.distance"
      ELSE IF inb /\ Dist(ev.q, r) > e THEN "closest.iupac_distance" ELSE "ok"
 
+(* the identity returned with the answer: the best, over the returned references, of LCS length over  *)
+(* the length of the shortest alignment achieving it; compared in millionths, one unit of rounding.   *)
+JudgeIdentity(ev) ==
+  IF ev.alpha # "acgt" \/ ev.err # "" THEN "ok"
+  ELSE LET B   == {x \in 1..Len(ev.inb) : ev.inb[x] = 1}
+           ppm(p) == (2 * p[1] * 1000000 + p[2]) \div (2 * p[2])
+           ids == {ppm(LCSPair(ev.q, ev.refs[x])) : x \in B}
+           top == CHOOSE v \in ids : \A w \in ids : w <= v
+       IN IF B = {} THEN "ok"
+          ELSE IF ev.idppm - top \in {-1, 0, 1} THEN "ok" ELSE "closest.identity"
+
 (* distances of reference k to all references, exact below the bound B and only "at least B" above it *)
 DistsFrom(refs, k, B) ==
   [j \in 1..Len(refs) |->
@@ -84,7 +95,7 @@ JudgeKmer(ev) ==
   ELSE IF ev.common = Common4(ev.q, ev.refs[1]) THEN "ok" ELSE "kmer.common4"
 
 Verdict(ev, j) ==
-  CASE ev.k = "closest" -> JudgeClosest(ev, j)
+  CASE ev.k = "closest" -> LET v == JudgeClosest(ev, j) IN IF v = "ok" /\ j = 1 THEN JudgeIdentity(ev) ELSE v
     [] ev.k = "index"   -> JudgeIndex(ev)
     [] ev.k = "assign"  -> JudgeAssign(ev)
     [] ev.k = "kmer"    -> JudgeKmer(ev)
